@@ -121,6 +121,10 @@ func (propC10) GenAt(index int, seed uint64, tier string) *Case {
 	if r.Chance(0.2) {
 		rec.Ops = append(rec.Ops, Op{K: "add", Node: &Node{K: "var", S: g.newID(), N: []*Node{{K: "bad"}}}})
 	}
+	if r.Chance(0.05) {
+		// a tree that cannot be rendered at all: Lit of an unsupported type panics by contract
+		rec.Ops = append(rec.Ops, Op{K: "add", Node: &Node{K: "var", S: g.newID(), N: []*Node{{K: "unsupported", I: 1}}}})
+	}
 	for i := r.Range(1, 3); i > 0; i-- {
 		rec.Frags = append(rec.Frags, g.fragment())
 	}
@@ -155,6 +159,9 @@ func (propC10) GenAt(index int, seed uint64, tier string) *Case {
 			f := &FSPlan{Target: r.Pick(c10Targets), Part: r.Pick2(0, 0, 3, 10, 50)}
 			if r.Chance(0.3) {
 				f.Target = r.Pick([]string{"again", "again-mkparent", "again-deleted", "again-scribbled"})
+			}
+			if f.Target == "existing" && r.Chance(0.3) {
+				f.RO = true
 			}
 			if r.Chance(0.45) {
 				f.Inject = r.Pick([]string{"eacces", "enospc", "eio"})
@@ -299,6 +306,23 @@ func (propC10) Check(c *Case) (*Violation, *RunInfo) {
 			viol = &Violation{Rule: rule, Op: i, Detail: fmt.Sprintf("op %d (%s %s, fault plan %s): ", i, a.Kind, a.Obj, fk) + fmt.Sprintf(format, args...),
 				Expected: ref.class() + " " + trunc(string(ref.Out), 600), Observed: a.class() + " err=" + trunc(a.Err+a.Panic, 300) + " out=" + trunc(string(a.Out), 600)}
 		}
+		if fileUnrenderable(c.Recipe, i) && (a.Obj == "file" || a.Obj == "body") {
+			// the File contains a literal of an unsupported type: rendering cannot succeed (it
+			// panics by contract); whatever the call does instead, it must not report success
+			// nor write anything
+			ri.count("unrenderable_trees", 1)
+			if a.OK {
+				fail("C10-failure-reported-as-success", "the File contains Lit(<struct>), which cannot be rendered, yet the call returned nil (writer got %d bytes)", len(a.Out))
+			} else if op.K == "save" {
+				before, after := targetRows(a.FSBefore, a.Target), targetRows(a.FSAfter, a.Target)
+				if strings.Join(before, "\n") != strings.Join(after, "\n") {
+					fail("C10-A1-target-touched", "rendering cannot succeed but the target changed: before %v, after %v", before, after)
+				}
+			} else if len(a.Out) > 0 {
+				fail("C10-A1-partial-write", "rendering cannot succeed yet the writer received %d bytes", len(a.Out))
+			}
+			continue
+		}
 		if ref.Panic != "" {
 			ri.count("reference_panics", 1)
 			continue // a panicking tree is C02's business
@@ -367,4 +391,32 @@ func (propC10) Check(c *Case) (*Violation, *RunInfo) {
 	ri.Inter = digest(ri.Frozen, keys)
 	ri.States = keys
 	return viol, ri
+}
+
+// fileUnrenderable reports whether, at op i, the File's own tree contains a node that
+// cannot be rendered by contract (ground truth from the recipe, not from the code under test).
+func fileUnrenderable(rec *Recipe, i int) bool {
+	has := func(n *Node) bool {
+		found := false
+		n.walk(func(x *Node) {
+			if x.K == "unsupported" {
+				found = true
+			}
+		})
+		return found
+	}
+	for j := 0; j <= i && j < len(rec.Ops); j++ {
+		op := rec.Ops[j]
+		switch op.K {
+		case "add":
+			if has(op.Node) {
+				return true
+			}
+		case "addfrag":
+			if len(rec.Frags) > 0 && has(rec.Frags[op.I%len(rec.Frags)]) {
+				return true
+			}
+		}
+	}
+	return false
 }
